@@ -39,7 +39,7 @@ def build(tier, seed):
                 'generator}; non-trivial = word not identically zero' % (L, list(DTS)),
         'bounds': {'alphabet': SIGMA, 'max_len': L, 'dt': DTS, 'trap': [True, False]},
         'required_classes': ['trap', 'rect', 'const-acc', 'linear-acc', 'neg-peak-dominant', 'pos-peak-dominant',
-                             'prefix-edge', 'int-input', 'object-reused', 'dtype-variant', 'extreme-scale', 'object-after-edit', 'object-after-query', 'narrow-int-record', 'peak-read-order', 'odd-dt', 'low-precision-record', 'long-closed-form'],
+                             'prefix-edge', 'int-input', 'object-reused', 'dtype-variant', 'extreme-scale', 'object-after-edit', 'object-after-query', 'narrow-int-record', 'peak-read-order', 'odd-dt', 'low-precision-record', 'long-closed-form', 'peaks-after-explicit-generator'],
         'assumptions': ['sample values outside {-2..2} and lengths above the bound are not examined',
                         'dt only on the menu', 'reference: exact rational cumulative sums (fractions.Fraction)'],
     }
@@ -316,6 +316,31 @@ def run_case(w):
                     if ok:
                         wanted = {'pgv': want[1], 'pgd': want[2], 'velocity': fl(vref), 'displacement': fl(dref)}[first_read]
                         r.expect_close('peaks.object-first-read-after-reset_values', s3, out, wanted, rtol=1e-9, atol=1e-13 * amax * dt * n)
+            # the peaks are those of the series the object holds: after the explicit generator with either rule (called on a fresh object,
+            # after a lazy peak and after a lazy series read), PGV / PGD are the largest |value| of that rule's series
+            if scale == 1.0 and n <= 5:
+                for trap_ in (False, True):
+                    vr_, dr_ = ref_series(w, dt, trap_)
+                    wantp = (float(max(abs(x) for x in vr_)), float(max(abs(x) for x in dr_)))
+                    for pre in (None, 'pgv', 'pgd', 'velocity'):
+                        s3 = dict(sub, generator_trap=trap_, read_before_generator=pre)
+
+                        def gen_then_peaks():
+                            s = eqsig.AccSignal(np.array(w, dtype=float), dt)
+                            if pre:
+                                getattr(s, pre)
+                            s.generate_displacement_and_velocity_series(trap=trap_)
+                            return s.pgv, s.pgd, np.array(s.velocity), np.array(s.displacement)
+                        ok, out = r.call('peaks', s3, gen_then_peaks)
+                        if ok:
+                            r.cls('peaks-after-explicit-generator')
+                            try:
+                                r.expect_close('peaks.object-after-generator', s3, out[:2], wantp, rtol=1e-9, atol=1e-300)
+                                r.expect_close('peaks.object-after-generator.series', s3, out[2], fl(vr_), rtol=1e-9, atol=1e-13 * amax * dt * n)
+                                r.expect_close('peaks.object-after-generator.series', dict(s3, series='displacement'), out[3], fl(dr_), rtol=1e-9,
+                                               atol=1e-13 * amax * dt * dt * n * n)
+                            except Exception as e:
+                                r.fail('peaks.object-after-generator', s3, 'malformed: %s' % e, observed=out)
             # the same object after its record has been replaced: read one peak, replace the values by scale*w, read all peaks
             if scale != 1.0:
                 for first_read in ('pga', 'pgv', 'pgd'):
